@@ -7,6 +7,7 @@ import Otel.C02.Sys
 import Otel.C02.Spec
 import Otel.C02.Obs
 import Otel.C02.ReaderLts
+import Otel.C02.ManualLts
 import Otel.C02.Exemplar
 open Otel Otel.Wire Otel.C02
 
@@ -71,6 +72,9 @@ def expandForced (groups : List (List String)) : List (List String) :=
     -- Shutdown of reader r started while its interval export is between collect and export: Shutdown waits for the run
     -- loop (`<-r.done`; ReaderLts.lean: `shutSwap` needs `loop = exited`), so the interval export comes first
     | ["ovlts", r, j, a, v] => [["tick", r], ["add", j, a, v], ["rshut", r]]
+    -- ManualReader r: a Collect that has loaded the producer is parked in a callback, Add, Shutdown (returns at once),
+    -- release: the collection in flight completes and carries the Add (ManualLts.lean: load, shutdown, produce)
+    | ["ovlms", r, j, a, v] => [["add", j, a, v], ["col", r], ["rshut", r]]
     | ["shutslow"] => [["shut"]]
     | _ => [g]
 
@@ -305,7 +309,8 @@ def tableAt (ops : List OOp) (i : Nat) : Table :=
 /-- the oracle for observable instruments: every collection of reader X reports exactly what X's callbacks observed
 during it — for every instrument, with X's own temporality (delta: minus what X itself observed in its preceding
 collection) — whatever the other readers did in the meantime -/
-def obsOracle (rs : List (Temporality × Temporality)) (is : List OInst) (ops : List OOp) (recs : List ObsRec) : Bool :=
+def obsOracle (rs : List (Temporality × Temporality)) (is : List OInst) (ops : List OOp) (recs : List ObsRec)
+    (off : List Bool := []) : Bool :=
   (List.range recs.length).all fun k =>
     match recs[k]? with
     | none => false
@@ -319,6 +324,8 @@ def obsOracle (rs : List (Temporality × Temporality)) (is : List OInst) (ops : 
           | some p => tableAt ops p.op
           | none => []
         rc.streams.all (fun st => decide (st.1 < is.length)) &&
+        -- a reader whose selector rejects / drops the observable kinds reports nothing; every other reader everything
+        if off.getD rc.reader false then rc.streams.isEmpty else
         (List.range is.length).all fun j =>
           match is[j]? with
           | none => false
@@ -440,6 +447,7 @@ def stepLine (_ : Unit) (toks : List String) : Unit × Option Verdict :=
           tagIf rejecting "absent-stream" ++
           tagIf (groups.any fun g => g.head? == some "ovltf") "flush-overlapping-interval-export" ++
           tagIf (groups.any fun g => g.head? == some "ovlts") "shutdown-overlapping-interval-export" ++
+          tagIf (groups.any fun g => g.head? == some "ovlms") "manual-shutdown-with-collect-in-flight" ++
           tagIf (groups.any fun g => g.head? == some "ovlff") "overlapping-flushes" ++
           tagIf (groups.contains ["shutslow"]) "shutdown-own-deadline-slow-exporter" ++
           tagIf ((List.range is.length).any fun j => names.getD j j != j && ownerOf is names j == j) "same-name-different-stream" ++
@@ -451,21 +459,30 @@ def stepLine (_ : Unit) (toks : List String) : Unit × Option Verdict :=
     ((), r)
   | "obs" :: _ :: rstr :: istr :: rest =>
     let r : Option Verdict := do
-      let rcs ← (rstr.splitOn ",").mapM parseReader
+      -- reader `m<d|c><d|c>[r|D]`: r = the reader's selector answers an incompatible aggregation for every observable
+      -- kind (the constructors join the error and go on), D = AggregationDrop; `+reg` after the instruments = no
+      -- creation-time callbacks, ONE RegisterCallback callback observing every instrument in index order (same steps)
+      let rtoks := rstr.splitOn ","
+      let off := rtoks.map fun t => t.length == 4 && (t.endsWith "r" || t.endsWith "D")
+      let rcs ← rtoks.mapM fun t => parseReader (if t.length == 4 && (t.endsWith "r" || t.endsWith "D") then (t.take 3).toString else t)
       let rs := rcs.map fun rc => (rc.tc, rc.tu)
-      let is ← (istr.splitOn ",").mapM parseOInst
+      let regMode := istr.endsWith "+reg"
+      let is ← (((istr.splitOn "+").headD "").splitOn ",").mapM parseOInst
       let ops ← (splitBar rest).mapM parseOOp
-      let model := (OSys.run rs is ops).recs
+      let model := (OSys.runR ((rs.zip off).map fun p => (p.1.1, p.1.2, p.2)) is ops).recs
       let mstr := model.map renderORec
       match obs.mapM parseObsRec with
       | none => pure { agree := false, spec := "FAIL", nontrivial := false, branches := "unparsed-observation", model := " ".intercalate mstr }
       | some recs =>
-        let spec := obsOracle rs is ops recs
+        let spec := obsOracle rs is ops recs off
         let overlap := ops.any fun op => match op with | .ovl r1 r2 j => r1 != r2 && j < is.length | _ => false
         let tags := ["observable"] ++ tagIf overlap "overlapping-collections" ++
           tagIf (model.any fun rc => rc.2.2.any fun st => match st.2.1 with | some (.delta, _) => true | _ => false) "delta" ++
           tagIf (model.any fun rc => rc.2.2.any fun st => match st.2.1 with | some (.cumulative, _) => true | _ => false) "cumulative" ++
-          tagIf (model.any fun rc => rc.2.2.any fun st => st.2.1.isNone) "gauge"
+          tagIf (model.any fun rc => rc.2.2.any fun st => st.2.1.isNone) "gauge" ++
+          tagIf (off.any id) "reader-without-observable-streams" ++
+          tagIf ((off.zip (off.drop 1)).any fun p => p.1 && !p.2) "rejecting-reader-before-normal-reader" ++
+          tagIf regMode "register-callback"
         pure { agree := mstr == obs, spec := if spec then "ok" else "FAIL",
                nontrivial := overlap && model.any (fun rc => !rc.2.2.isEmpty),
                branches := ",".intercalate tags, model := " ".intercalate mstr }
@@ -517,6 +534,18 @@ def stepLine (_ : Unit) (toks : List String) : Unit × Option Verdict :=
            | _, _, _, _, _ => false)
         | _ => false
       let xok := xok && xtoks.length == (rs.filter (·.periodic)).length
+      -- `M:` tokens: a ManualReader after Shutdown (ManualLts.lean): late Collect refused and empty, second Shutdown refused
+      let mtoks := obs.filter (·.startsWith "M:")
+      let obs := obs.filter fun o => !o.startsWith "M:"
+      let mok := mtoks.all fun x =>
+        match x.splitOn ":" with
+        | [_, r, c, n, sd] =>
+          (match parseNat r, parseNat n with
+           | some r, some n => (match rs[r]? with | some rc => !rc.periodic | none => false) &&
+               Spec.manualObsOK (c == "err") (n == 0) (sd == "err")
+           | _, _ => false)
+        | _ => false
+      let xok := xok && mok && mtoks.length == (rs.filter (!·.periodic)).length
       match obs.mapM parseRec with
       | none => pure { agree := false, spec := "FAIL", nontrivial := false, branches := "unparsed-observation", model := "-" }
       | some recs =>
